@@ -453,7 +453,8 @@ def text_part(rep, tl, tier, rng, cov, stats):
             n_acc += 1
         if o != w or (o[0] == "ok" and type(o[1]) is not type(w[1])):
             stats["text_diffs"] += 1
-            rep.disagree({"part": "value", "rule": rule, "expected": "accepted" if w[0] == "ok" else "rejected"}, obs_class_of(o),
+            rep.disagree({"part": "value", "rule": rule, "expected": "accepted" if w[0] == "ok" else "rejected"},
+                         "wrong-value" if (o[0] == "ok" and w[0] == "ok") else obs_class_of(o),
                          {"name": name, "text": t, "relaxed_bool": relaxed, "want": w, "got": o})
     stats["value_evals"] = len(meta)
     stats["value_texts"] = len(universe)
@@ -474,7 +475,8 @@ def text_part(rep, tl, tier, rng, cov, stats):
             stats["text_diffs"] += 1
             names = sorted({x for x in toks if x in ("nogil", "warn")})
             rep.disagree({"part": "list", "way": way, "expected": "accepted" if s is not None else "rejected",
-                          "type_class": "novalue" if names else "typed", "names": ",".join(names)}, obs_class_of(o),
+                          "type_class": "novalue" if names else "typed", "names": ",".join(names)},
+                         "wrong-value" if (o[0] == "ok" and w[0] == "ok") else obs_class_of(o),
                          {"text": t, "way": way, "want": w, "got": o})
     stats["list_evals"] = len(meta)
     stats["list_texts"] = len(texts)
@@ -604,16 +606,16 @@ def make_b1(sets, t3d, t3n, gsrc, quick, seed, rng):
     fdef = [c for c in t3d if any(n["kind"] in ("def", "cfn") for n in c["nodes"])]
     nb = 1 if quick else 3
     for i in range(nb):
-        b1_groups.append(core.sample(fdef, 6 if quick else 14, rng) + core.sample(t3n, 8 if quick else 16, rng))
+        b1_groups.append(core.sample(fdef, 6 if quick else 8, rng) + core.sample(t3n, 8 if quick else 12, rng))
     conflict = [k for k in sorted(gsrc) if (lambda c: c["hpos"] == "top" and any(
         c["hdr"][d] != "-" and c["opt"][d] != "-" and c["hdr"][d] != c["opt"][d] for d in "pq"))(gsrc[k][0])]
     for i in range(nb):
-        b1_groups.append(core.sample(gsrc[rng.choice(conflict)], 16 if quick else 48, rng))
+        b1_groups.append(core.sample(gsrc[rng.choice(conflict)], 16 if quick else 24, rng))
     if sets["tree2"]:
         g2 = group_by_src(sets["tree2"])
         k2 = sorted(g2)
         for i in range(nb):
-            b1_groups.append(core.sample(g2[k2[(seed + 1 + i * 2) % len(k2)]], 30, rng))
+            b1_groups.append(core.sample(g2[k2[(seed + 1 + i * 2) % len(k2)]], 20, rng))
     else:
         # quick: a second header/option combination, header only or option only
         single = [k for k in sorted(gsrc) if (lambda c: c["hpos"] != "top" or (c["hdr"] == {"p": "-", "q": "-"}) != (c["opt"] == {"p": "-", "q": "-"}))(gsrc[k][0])]
@@ -676,10 +678,10 @@ def run(tier, seed):
     t3 = sets["tree3"]
     t3d = [c for c in t3 if has_deferred(c)]
     t3n = [c for c in t3 if not has_deferred(c)]
-    pick3 = core.sample(t3n, 260 if quick else 6000, rng) + core.sample(t3d, 40 if quick else len(t3d), rng)
-    pick2 = core.sample(sets["tree2"], 4000, rng)
+    pick3 = core.sample(t3n, 260 if quick else 3000, rng) + core.sample(t3d, 40 if quick else 600, rng)
+    pick2 = core.sample(sets["tree2"], 1500, rng)
     gsrc = group_by_src(sets["src"])
-    src_keys = core.sample(sorted(gsrc), 12 if quick else 225, rng)
+    src_keys = core.sample(sorted(gsrc), 10 if quick else 100, rng)
     mods = make_b3_modules(group_by_src(pick3), rng, 30, "a")
     mods += make_b3_modules(group_by_src(pick2), rng, 30, "b")
     mods += make_b3_modules({k: gsrc[k] for k in src_keys}, rng, 48, "c")
@@ -691,7 +693,7 @@ def run(tier, seed):
 
     def b1_work():
         t = time.time()
-        builds = core.build_many(specs, jobs=par)
+        builds = core.build_many(specs, jobs=par, timeout=2700)
         phases["b1_build"] = round(time.time() - t, 1)
         out = [(b, execute_run(m, b) if b.ok else None) for m, b in zip(b1mods, builds)]
         phases["b1_total"] = round(time.time() - t, 1)
@@ -727,6 +729,8 @@ def run(tier, seed):
     # ---- B1
     n_run = n_calls = 0
     for m, sp, (b, executed) in zip(b1mods, specs, b1_out):
+        if not b.ok and b.stage in ("timeout", "cython-crash") and "Traceback" not in (b.errors or ""):
+            core.die("B1 build of %s did not finish (%s): %s" % (m.name, b.stage, (b.errors or "")[-500:]))
         if not b.ok:
             rep.disagree({"part": "scope", "point": "build", "kind": "module", "differs_from_owner": False, "owner_kind": "mod"},
                          "build-failed", {"module": m.name, "stage": b.stage, "errors": b.errors[-3000:], "source": m.source[:8000]})
